@@ -206,6 +206,13 @@ def progress_violation(doc, impl_out):
         new = (set(lines) | ids | foots) - seen
         if not blank and not new:
             return f'page {page[1]} shows nothing new'
+        if not blank and not (set(lines) | foots) - seen and not visible_boxes(page[8]) and len(pages) > 1:
+            # only boxes without any extent are new on the page: no content is shown. The unchanged code makes such
+            # pages too (an empty box after a forced break), so this is judged against its pagination (the model)
+            reference = reference_line(doc)
+            if reference is not None and not reference.startswith('err:') and reference.count('(page ') < len(pages):
+                return (f'page {page[1]} shows no content (only boxes without height, padding or border); the '
+                        f'unchanged pagination has {reference.count("(page ")} pages, not {len(pages)}')
         if blank and not foots and previous_empty_blank:
             return f'two consecutive empty blank pages at {page[1]}'
         if blank and foots and not (foots - seen):
@@ -289,13 +296,26 @@ def unbreakable_violation(doc, impl_out):
     return None
 
 
+def visible_boxes(frag):
+    """Does the fragment (or a descendant) have an extent: a line, a height, a padding or a border?"""
+    from fractions import Fraction
+    if frag[0] == 'p' and frag[-1]:
+        return True
+    _y, _mt, _mb, pt, pb, bt, bb, h = (Fraction(x) for x in frag[3:11])
+    if frag[0] == 'p':
+        return bool(pt or pb or bt or bb or h)
+    if not frag[-1]:
+        return bool(pt or pb or bt or bb or h)
+    return bool(pt or pb or bt or bb) or any(visible_boxes(kid) for kid in frag[-1])
+
+
 def overlap_violation(doc, impl_out):
     """Geometry (C03): no line of the page (other than the first line placed on it) ends below the top of the margin
     box of the page's footnote area, i.e. body text and footnote area do not overlap; the footnotes of the area are
     stacked without gap or overlap, the area ends at the page bottom; and no such line ends below the page box.
     Documents with fixed / maximal heights (content overflows its box by design) are not judged; a footnote area
     whose decorations sum to a negative length is judged for the area itself only (finding
-    footnote-area-negative-margin-overflow)."""
+    footnote-area-negative-margin-box)."""
     if impl_out.startswith('err:'):
         return None
     if unjudged_geometry(doc):
@@ -451,19 +471,27 @@ def page_box_overflow(doc, impl_out):
 
 
 def replay_area_negative_margin():
-    """@footnote{margin-top:-4px}: the emptied area raises page_bottom above the page box, a line overflows it."""
+    """(fixed 84e5b27) @footnote{margin-top:-4px}: the emptied area raised page_bottom above the page box."""
     doc = corpus_doc('footnote_area_negative_margin')
+    return bool(page_box_overflow(doc, real_line(doc)))
+
+
+def replay_area_negative_margin_box():
+    """@footnote{margin-top:-14px} over a 10px footnote: the margin box of the non-empty area is -4px high,
+    page_bottom ends below the page box and a line overflows it."""
+    doc = corpus_doc('footnote_area_negative_margin_box')
     return bool(page_box_overflow(doc, real_line(doc)))
 
 
 FINDING_REPLAYS = {
     'footnote-page-groups-attributeerror': replay_page_groups_none,        # C02 (variant of page-groups-indexerror)
-    'footnote-area-negative-margin-overflow': replay_area_negative_margin,  # C03
+    'footnote-area-negative-margin-box': replay_area_negative_margin_box,  # C03
     # repaired in /repo (`fixed:` lines of known_findings.txt); kept so that the checks that still name them keep
     # working - the documents are regression cases of add_cases (corpus first)
     'footnote-policy-block-crash': replay_policy_block_crash,              # C02, fixed 67bf2ca
     'footnote-named-page-lost': replay_named_page_lost,                    # C01, fixed 8db5909
     'footnote-named-page-area-overlap': replay_named_page_overlap,         # C03, fixed 8db5909
+    'footnote-area-negative-margin-overflow': replay_area_negative_margin,  # C03, fixed 84e5b27
 }
 
 
